@@ -2,7 +2,7 @@
    specification [sinsert] on a single document, every history, union = sort_dedup, union laws. *)
 From Coq Require Import List Arith Bool Lia ZArith ZifyBool ZifyNat.
 Import ListNotations.
-Require Import XV.NodeListDefs XV.DocOrderModel.
+Require Import XV.GenNodelist XV.NodeListDefs XV.DocOrderModel.
 
 Ltac Zify.zify_post_hook ::= Z.to_euclidean_division_equations.
 
@@ -240,23 +240,32 @@ Section Lists.
 
   (* ---- linear search ---- *)
 
-  Lemma linearSearch_spec : forall pred n l pos, indoc n -> Forall indoc l -> sorted W l = true ->
+  Lemma indoc_same_document : forall n c, indoc n -> indoc c -> documentPredicate n c = false.
+  Proof.
+    intros n c Hn Hc. unfold indoc, in_doc in *. apply andb_true_iff in Hn. apply andb_true_iff in Hc.
+    destruct Hn as [Hn _], Hc as [Hc _]. apply Nat.eqb_eq in Hn. apply Nat.eqb_eq in Hc.
+    unfold documentPredicate. rewrite Hn, Hc, Nat.eqb_refl. reflexivity.
+  Qed.
+
+  (* both variants of the loop (with and without the "keep documents together" flag) *)
+  Lemma linearSearch_spec : forall grp pred n l pos seen, indoc n -> Forall indoc l -> sorted W l = true ->
     (forall c, In c l -> c <> n -> pred n c = (key W c <? key W n)) ->
-    let '(ins, ip) := linearSearch pred l n pos in
+    let '(ins, ip) := linearSearch grp pred l n pos seen in
     pos <= ip /\ (if ins then insert_at (ip - pos) n l else l) = sinsert W n l.
   Proof.
-    intros pred n l. induction l as [|c r IH]; intros pos Hn Hl Hs Hp.
+    intros grp pred n l. induction l as [|c r IH]; intros pos seen Hn Hl Hs Hp.
     - simpl. split; [lia|]. rewrite Nat.sub_diag. reflexivity.
     - inversion Hl; subst. cbn [linearSearch]. destruct (lnode_eqb c n) eqn:E.
       + apply lnode_eqb_eq in E; subst c. split; [lia|]. simpl.
         rewrite Nat.ltb_irrefl, Nat.eqb_refl. reflexivity.
       + assert (Hcn : c <> n) by (intro; subst; rewrite (proj2 (lnode_eqb_eq n n) eq_refl) in E; discriminate).
+        rewrite (indoc_same_document n c Hn H1), andb_false_r.
         rewrite (Hp c (or_introl eq_refl) Hcn).
         assert (Hk : key W c <> key W n) by (intro K; apply Hcn; apply key_inj; assumption).
         destruct (key W c <? key W n) eqn:E1; simpl negb; cbv iota.
         * apply Nat.ltb_lt in E1. apply sorted_cons in Hs. destruct Hs as [_ Hs].
-          specialize (IH (S pos) Hn H2 Hs ltac:(intros; apply Hp; [right|]; assumption)).
-          destruct (linearSearch pred r n (S pos)) as [ins ip]. destruct IH as [Hle Heq].
+          specialize (IH (S pos) (grp || seen) Hn H2 Hs ltac:(intros; apply Hp; [right|]; assumption)).
+          destruct (linearSearch grp pred r n (S pos) (grp || seen)) as [ins ip]. destruct IH as [Hle Heq].
           split; [lia|]. simpl.
           replace (key W n <? key W c) with false by (symmetry; apply Nat.ltb_ge; lia).
           replace (key W n =? key W c) with false by (symmetry; apply Nat.eqb_neq; lia).
@@ -302,7 +311,7 @@ Section Lists.
     addNodeInDocOrder W l n = Some (sinsert W n l).
   Proof.
     intros l n Hl Hn Hs. destruct l as [|f l']; [reflexivity|].
-    unfold addNodeInDocOrder. cbv beta iota. set (l := f :: l') in *.
+    unfold addNodeInDocOrder, addNodeInDocOrder_v. cbv beta iota. set (l := f :: l') in *.
     assert (HlastIn : In (last l dummy) l) by apply last_in.
     destruct (lnode_eqb (last l dummy) n) eqn:Elast.
     - apply lnode_eqb_eq in Elast. f_equal. symmetry. apply sinsert_dup; [assumption | rewrite <- Elast; assumption].
@@ -329,8 +338,8 @@ Section Lists.
              assert (Hin : In (nth k l dummy) l) by (apply nth_In; assumption).
              replace n with (nth k l dummy); [assumption|].
              apply key_inj; try assumption; [|lia]. rewrite Forall_forall in Hl. apply Hl. assumption.
-      + pose proof (linearSearch_spec (executionContextPredicate W) n l 0 Hn Hl Hs) as Hlin.
-        destruct (linearSearch (executionContextPredicate W) l n 0) as [ins ip].
+      + pose proof (linearSearch_spec keeps_documents_together (executionContextPredicate W) n l 0 false Hn Hl Hs) as Hlin.
+        destruct (linearSearch keeps_documents_together (executionContextPredicate W) l n 0 false) as [ins ip].
         destruct Hlin as [_ Heq].
         * intros c Hc Hcn. apply ecpred_spec; try assumption. rewrite Forall_forall in Hl. apply Hl. assumption.
         * f_equal. rewrite Nat.sub_0_r in Heq. exact Heq.
